@@ -1,0 +1,3 @@
+// Package verifhook holds the registry of verification failpoints; it is empty unless the build
+// tag "verif" is given.
+package verifhook
